@@ -15,7 +15,7 @@ def run(ctx):
                 "failing import / cyclic DAG, capture fd|sys|tee-sys|no, verbose 0-2, force, dry-run, invalid configuration; before/after each build: fstat(0..2), "
                 "/proc/self/fd, identity of sys.std*, cwd, warnings.filters, pdb.set_trace, registries; outcomes vs the same build in a fresh process; "
                 "the same sequence replayed in the Lean model; non-trivial = >= 2 builds and some build executed a task; distinct by canonical sequence")
-    capture_api.campaign_c15(ctx, ctx.scale(9, 60), workers=8)
+    capture_api.campaign_c15(ctx, ctx.scale(7, 60), workers=10)
     found = {v["finding"] for v in ctx.violations}
     ctx.extra["f6b_witness_detected"] = "F6b" in found
     ctx.extra["f6c_witness_detected"] = "F6c" in found
